@@ -233,7 +233,7 @@ TECH_EXTRA["C14"] = TECH_EXTRA.get("C14", "") + "; process-stall monitor (schedu
 EXTRA7 = {
  "C02": " Sealed frames kept alive as objects while their builder does other work, refusing paths included (bytes and round trip afterwards).",
  "C03": " First-contact race: several workers handle copies of one signed frame of a known router without session object, storage lookup stretched. Replays after the idle lifetime of a session (virtual time): the signed class is a known finding (known_findings.json), the encrypted classes must stay refused.",
- "C04": " An end-to-end key setup between the two routers completes at every message position of their handshake (both initiators): if both ends register the link, traffic must cross it. One history is a known finding (known_findings.json): the dialling router serves a hello request between its handshake request and the response.",
+ "C04": " The two halves of an end-to-end hello between the two routers (request served in place; response installed as a detached session) placed at every message position of their handshake, either router initiating: if both ends register the link, traffic must cross it. The first half is a known finding (known_findings.json): a router serving a hello request of its peer in the middle of their link handshake ends up with link keys of the wrong exchange.",
  "C05": " Reflection after both directions of a link rolled their keys over.",
  "C07": " The victim's own frames reflected to it (as sent, and with a genuine hop record of the neighbour).",
  "C08": " Announcements after idle minutes and session-cleaner ticks (virtual time).",
